@@ -62,6 +62,8 @@ class ScriptedPRNG:
         self.frontier: List[List[int]] = []       # viable outcomes at each decision
         self.trace: List[Tuple[str, Tuple[float, ...], int]] = []
         self.bad_p: Optional[str] = None
+        self.force_fallback_call: Optional[int] = None   # n-th random() answers "not below" throughout
+        self.fallback_forced = False
         self.calls = {"choice": 0, "random": 0, "randint": 0}
 
     # -- copying: a simulation state copy must keep drawing from the same script -----------------
@@ -147,6 +149,9 @@ class ScriptedPRNG:
         self.calls["random"] += 1
         if size is not None:
             raise HarnessError("ScriptedPRNG.random(size=...) is not scripted")
+        if self.force_fallback_call is not None and self.calls["random"] - 1 == self.force_fallback_call:
+            self.fallback_forced = True
+            return ScriptedUniform(self, forced_no=True)
         return ScriptedUniform(self)
 
     random_sample = random
@@ -160,19 +165,23 @@ class ScriptedPRNG:
 class ScriptedUniform:
     """A symbolic draw u ~ U[0,1): learns the weights subtracted from it, answers `< 0` / `>= 0`."""
 
-    def __init__(self, prng: ScriptedPRNG, subtracted: Tuple[float, ...] = (), decided: Optional[dict] = None):
+    def __init__(self, prng: ScriptedPRNG, subtracted: Tuple[float, ...] = (), decided: Optional[dict] = None,
+                 forced_no: bool = False):
         self._prng = prng
         self._sub = tuple(subtracted)
         self._decided = decided if decided is not None else {}
+        self._forced_no = forced_no     # the draw u = 1 - 2**-53 with weights that sum to slightly less than 1
 
     def __sub__(self, w):
-        return ScriptedUniform(self._prng, self._sub + (float(w),), self._decided)
+        return ScriptedUniform(self._prng, self._sub + (float(w),), self._decided, self._forced_no)
 
     __isub__ = __sub__
 
     def _below_zero(self) -> bool:
         """Is u - sum(subtracted) < 0 ?  Decided once per distinct prefix of subtractions."""
         k = len(self._sub)
+        if self._forced_no:
+            return False
         if k in self._decided:
             return self._decided[k]
         if k == 0:
